@@ -43,6 +43,9 @@ def FInv (E : Env) (s : PState) : Prop := MemoOK s ∧ PtInv E s
 theorem FInv.congr {E : Env} {s s' : PState} (h : FInv E s) (h1 : s'.pt = s.pt) (h2 : s'.memo = s.memo) : FInv E s' :=
   ⟨h.1.congr h2, h.2.congr h1 h2⟩
 
+theorem FInv.congr' {E : Env} {s s' : PState} (h : FInv E s) (h1 : Reach E.input s'.pt) (h2 : s'.memo = s.memo) : FInv E s' :=
+  ⟨h.1.congr h2, h1, by rw [h2]; exact h.2.2⟩
+
 theorem FInv.of_framed {E : Env} {s s' : PState} {ok : Bool} (h : FInv E s) (hf : Framed E s ok s') : FInv E s' :=
   ⟨hf.memo, hf.stk.ptinv h.2⟩
 
@@ -53,44 +56,54 @@ def Adv (rn : String → Bool) (e : Expr) (s : PState) (ok : Bool) (s' : PState)
 section
 variable {E : Env} {rec : Expr → PState → Outcome} {rn : String → Bool}
 
+/-- an additional invariant of the run that only looks at the memo table (`True` in the plain configuration; "every
+    seed respects progress" with left recursion) -/
+structure MemoInv (J : PState → Prop) : Prop where
+  congr : ∀ (s s' : PState), s'.memo = s.memo → J s → J s'
+
 /-- what one sub-call gives: frame facts, invariants, progress -/
-def CallPost (E : Env) (rn : String → Bool) (e : Expr) (s : PState) (ok : Bool) (s' : PState) : Prop :=
-  Framed E s ok s' ∧ FInv E s' ∧ Adv rn e s ok s' ∧ (ok = false → s'.pt.pos.off = s.pt.pos.off)
+def CallPost (E : Env) (rn : String → Bool) (J : PState → Prop) (e : Expr) (s : PState) (ok : Bool) (s' : PState) : Prop :=
+  Framed E s ok s' ∧ FInv E s' ∧ J s' ∧ Adv rn e s ok s' ∧ (ok = false → s'.pt.pos.off = s.pt.pos.off)
 
-variable (hp : Plain E) (hfr : ∀ e s, FrameInv E s (rec e s))
-  (hrec : ∀ e s, FInv E s → (rec e s).Sat (fun _ ok s' => Adv rn e s ok s') (fun _ => True))
-include hp hfr hrec
+variable {J : PState → Prop} (hJ : MemoInv J)
+variable (hmz : E.opts.memoize = false) (hfr : ∀ e s, FrameInv E s (rec e s))
+  (hrec : ∀ e s, FInv E s → J s → (rec e s).Sat (fun _ ok s' => J s' ∧ Adv rn e s ok s') (fun _ => True))
+include hJ hmz hfr hrec
 
-theorem call_adv (e : Expr) (s : PState) (hi : FInv E s) :
-    (parseExprWrap E rec e s).Sat (fun _ ok s' => CallPost E rn e s ok s') (fun _ => True) := by
-  rw [wrap_eq hp.nomemo]
-  have h1 := hrec e s hi
+omit hJ in
+theorem call_adv (e : Expr) (s : PState) (hi : FInv E s) (hj : J s) :
+    (parseExprWrap E rec e s).Sat (fun _ ok s' => CallPost E rn J e s ok s') (fun _ => True) := by
+  rw [wrap_eq hmz]
+  have h1 := hrec e s hi hj
   have h2 := hfr e s hi.1
   revert h1 h2
   generalize rec e s = o
   cases o with
   | oof => intros; trivial
   | panic p s1 => intros; trivial
-  | done v ok s1 => intro h1 h2; exact ⟨h2, hi.of_framed h2, h1, h2.failOff⟩
+  | done v ok s1 => intro h1 h2; exact ⟨h2, hi.of_framed h2, h1.1, h1.2, h2.failOff⟩
 
 /-- sequence, from an intermediate state: on success no step back; all items nullable if nothing was consumed -/
-theorem seq_adv (pt : Savepoint) (st : Store) : ∀ (es : List Expr) (s : PState) (acc : List Val), FInv E s →
+theorem seq_adv (pt : Savepoint) (st : Store) : ∀ (es : List Expr) (s : PState) (acc : List Val), FInv E s → J s →
     (parseSeq E rec pt st es s acc).Sat
-      (fun _ ok s' => ok = true → s.pt.pos.off ≤ s'.pt.pos.off ∧ (s'.pt.pos.off = s.pt.pos.off → nulAll rn es = true))
+      (fun _ ok s' => J s' ∧ (ok = true → s.pt.pos.off ≤ s'.pt.pos.off ∧ (s'.pt.pos.off = s.pt.pos.off → nulAll rn es = true)))
       (fun _ => True)
-  | [], s, acc, _ => by
-    unfold parseSeq; intro _; exact ⟨Nat.le_refl _, fun _ => rfl⟩
-  | e :: es, s, acc, hi => by
+  | [], s, acc, _, hj => by
+    unfold parseSeq; exact ⟨hj, fun _ => ⟨Nat.le_refl _, fun _ => rfl⟩⟩
+  | e :: es, s, acc, hi, hj => by
     unfold parseSeq
-    apply Outcome.sat_bind (call_adv hp hfr hrec e s hi)
-    intro v ok s1 ⟨_, hi1, ha, _⟩
+    apply Outcome.sat_bind (call_adv hmz hfr hrec e s hi hj)
+    intro v ok s1 ⟨_, hi1, hj1, ha, _⟩
     cases ok with
-    | false => simp [Outcome.Sat]
+    | false =>
+      simp only [Bool.false_eq_true, if_false, Outcome.Sat]
+      exact ⟨hJ.congr _ _ (by simp) hj1, fun hb => by cases hb⟩
     | true =>
       simp only [if_true]
       obtain ⟨h1, h2⟩ := ha rfl
-      apply Outcome.sat_mono (seq_adv pt st es s1 _ hi1)
-      · intro v' ok' s' h hok
+      apply Outcome.sat_mono (seq_adv pt st es s1 _ hi1 hj1)
+      · intro v' ok' s' ⟨hj', h⟩
+        refine ⟨hj', fun hok => ?_⟩
         obtain ⟨h3, h4⟩ := h hok
         refine ⟨Nat.le_trans h1 h3, fun heq => ?_⟩
         have e1 : s1.pt.pos.off = s.pt.pos.off := by omega
@@ -99,20 +112,21 @@ theorem seq_adv (pt : Savepoint) (st : Store) : ∀ (es : List Expr) (s : PState
       · intro _ _; trivial
 
 /-- ordered choice, from a state with the same offset as the start -/
-theorem choice_adv (line col : Nat) : ∀ (alts : List Expr) (i : Nat) (s : PState), FInv E s →
+theorem choice_adv (line col : Nat) : ∀ (alts : List Expr) (i : Nat) (s : PState), FInv E s → J s →
     (parseChoice E rec line col alts i s).Sat
-      (fun _ ok s' => ok = true → s.pt.pos.off ≤ s'.pt.pos.off ∧ (s'.pt.pos.off = s.pt.pos.off → nulAny rn alts = true))
+      (fun _ ok s' => J s' ∧ (ok = true → s.pt.pos.off ≤ s'.pt.pos.off ∧ (s'.pt.pos.off = s.pt.pos.off → nulAny rn alts = true)))
       (fun _ => True)
-  | [], i, s, _ => by unfold parseChoice; simp [Outcome.Sat]
-  | alt :: alts, i, s, hi => by
+  | [], i, s, _, hj => by
+    unfold parseChoice; simp only [Outcome.Sat]; exact ⟨hJ.congr _ _ (by simp) hj, fun hb => by cases hb⟩
+  | alt :: alts, i, s, hi, hj => by
     unfold parseChoice
     simp only []
-    apply Outcome.sat_bind (call_adv hp hfr hrec alt (pushV s) (hi.congr rfl rfl))
-    intro v ok s1 ⟨_, hi1, ha, hfail⟩
+    apply Outcome.sat_bind (call_adv hmz hfr hrec alt (pushV s) (hi.congr rfl rfl) (hJ.congr _ _ (by rfl) hj))
+    intro v ok s1 ⟨_, hi1, hj1, ha, hfail⟩
     cases ok with
     | true =>
       simp only [if_true, Outcome.Sat]
-      intro _
+      refine ⟨hJ.congr _ _ (by simp) hj1, fun _ => ?_⟩
       obtain ⟨h1, h2⟩ := ha rfl
       refine ⟨by simpa using h1, fun heq => ?_⟩
       have := h2 (by simpa using heq)
@@ -120,53 +134,55 @@ theorem choice_adv (line col : Nat) : ∀ (alts : List Expr) (i : Nat) (s : PSta
     | false =>
       simp only [Bool.false_eq_true, if_false]
       have hoff : (restoreState E (popV s1) s.state).pt.pos.off = s.pt.pos.off := by simpa using hfail rfl
-      apply Outcome.sat_mono (choice_adv line col alts (i + 1) _ (hi1.congr (by simp) (by simp)))
-      · intro v' ok' s' h hok
+      apply Outcome.sat_mono (choice_adv line col alts (i + 1) _ (hi1.congr (by simp) (by simp)) (hJ.congr _ _ (by simp) hj1))
+      · intro v' ok' s' ⟨hj', h⟩
+        refine ⟨hj', fun hok => ?_⟩
         obtain ⟨h3, h4⟩ := h hok
         rw [hoff] at h3 h4
         exact ⟨h3, fun heq => by simp [nulAny, h4 heq]⟩
       · intro _ _; trivial
 
 /-- the loop of `*` and `+`: never a step back; a successful `+` that consumed nothing has a nullable body -/
-theorem loop_adv (e : Expr) : ∀ (k : Nat) (s : PState) (acc : List Val), FInv E s →
+theorem loop_adv (e : Expr) : ∀ (k : Nat) (s : PState) (acc : List Val), FInv E s → J s →
     (parseLoop E rec e k s acc).Sat
-      (fun _ ok s' => s.pt.pos.off ≤ s'.pt.pos.off ∧
+      (fun _ ok s' => J s' ∧ s.pt.pos.off ≤ s'.pt.pos.off ∧
         (ok = true → acc = [] → s'.pt.pos.off = s.pt.pos.off → e.nul rn = true))
       (fun _ => True)
-  | 0, _, _, _ => by unfold parseLoop; trivial
-  | k + 1, s, acc, hi => by
+  | 0, _, _, _, _ => by unfold parseLoop; trivial
+  | k + 1, s, acc, hi, hj => by
     unfold parseLoop
     simp only []
-    apply Outcome.sat_bind (call_adv hp hfr hrec e (pushV s) (hi.congr rfl rfl))
-    intro v ok s1 ⟨_, hi1, ha, hfail⟩
+    apply Outcome.sat_bind (call_adv hmz hfr hrec e (pushV s) (hi.congr rfl rfl) (hJ.congr _ _ (by rfl) hj))
+    intro v ok s1 ⟨_, hi1, hj1, ha, hfail⟩
     cases ok with
     | true =>
       simp only [if_true]
       obtain ⟨h1, h2⟩ := ha rfl
-      apply Outcome.sat_mono (loop_adv e k (popV s1) (v :: acc) (hi1.congr (by simp) (by simp)))
-      · intro v' ok' s' ⟨h3, _⟩
+      apply Outcome.sat_mono (loop_adv e k (popV s1) (v :: acc) (hi1.congr (by simp) (by simp)) (hJ.congr _ _ (by simp) hj1))
+      · intro v' ok' s' ⟨hj', h3, _⟩
         have h1' : s.pt.pos.off ≤ s1.pt.pos.off := by simpa using h1
         have h3' : s1.pt.pos.off ≤ s'.pt.pos.off := by simpa using h3
-        refine ⟨Nat.le_trans h1' h3', fun _ _ heq => h2 ?_⟩
+        refine ⟨hj', Nat.le_trans h1' h3', fun _ _ heq => h2 ?_⟩
         have : s1.pt.pos.off = s.pt.pos.off := by omega
         simpa using this
       · intro _ _; trivial
     | false =>
       simp only [Bool.false_eq_true, if_false]
       have hoff : s1.pt.pos.off = s.pt.pos.off := by simpa using hfail rfl
+      have hj2 : J (popV s1) := hJ.congr _ _ (by simp) hj1
       split
       · rename_i hacc
         simp only [Outcome.Sat]
-        exact ⟨by simp [hoff], fun h => by cases h⟩
+        exact ⟨hj2, by simp [hoff], fun h => by cases h⟩
       · rename_i hacc
         simp only [Outcome.Sat]
-        refine ⟨by simp [hoff], fun _ hnil => ?_⟩
+        refine ⟨hj2, by simp [hoff], fun _ hnil => ?_⟩
         subst hnil; simp at hacc
 
-omit hp hfr hrec in
+omit hJ hmz hfr hrec in
 theorem lit_adv (start : Savepoint) (want : String) (ic : Bool) : ∀ (rs : List Rune) (s : PState),
     (parseLit E start want ic rs s).Sat
-      (fun _ ok s' => ok = true → s.pt.pos.off ≤ s'.pt.pos.off ∧ (s'.pt.pos.off = s.pt.pos.off → rs = []))
+      (fun _ ok s' => s'.memo = s.memo ∧ (ok = true → s.pt.pos.off ≤ s'.pt.pos.off ∧ (s'.pt.pos.off = s.pt.pos.off → rs = [])))
       (fun _ => True)
   | [], s => by unfold parseLit; simp [Outcome.Sat]
   | r :: rs, s => by
@@ -176,41 +192,44 @@ theorem lit_adv (start : Savepoint) (want : String) (ic : Bool) : ∀ (rs : List
     · rw [if_neg hc]
       have hw : s.pt.w ≠ 0 := by intro h0; apply hc; simp [h0]
       apply Outcome.sat_mono (lit_adv start want ic rs (read E s))
-      · intro v ok s' h hok
+      · intro v ok s' ⟨hm, h⟩
+        refine ⟨by rw [hm]; simp, fun hok => ?_⟩
         obtain ⟨h1, _⟩ := h hok
         have hr : (read E s).pt.pos.off = s.pt.pos.off + s.pt.w := by rw [read_pt]; simp
         rw [hr] at h1
         exact ⟨by omega, fun heq => by omega⟩
       · intro _ _; trivial
 
-theorem throw_adv (label : String) : ∀ (frames : List (List (String × Expr))) (s : PState), FInv E s →
-    (parseThrow E rec label frames s).Sat (fun _ ok s' => ok = true → s.pt.pos.off ≤ s'.pt.pos.off) (fun _ => True)
-  | [], s, _ => by unfold parseThrow; simp [Outcome.Sat]
-  | fr :: frs, s, hi => by
+omit hJ in
+theorem throw_adv (label : String) : ∀ (frames : List (List (String × Expr))) (s : PState), FInv E s → J s →
+    (parseThrow E rec label frames s).Sat (fun _ ok s' => J s' ∧ (ok = true → s.pt.pos.off ≤ s'.pt.pos.off)) (fun _ => True)
+  | [], s, _, hj => by unfold parseThrow; simp only [Outcome.Sat]; exact ⟨hj, fun hb => by cases hb⟩
+  | fr :: frs, s, hi, hj => by
     unfold parseThrow
     split
     · next r _ =>
-      apply Outcome.sat_bind (call_adv hp hfr hrec r s hi)
-      intro v ok s1 ⟨_, hi1, ha, hfail⟩
+      apply Outcome.sat_bind (call_adv hmz hfr hrec r s hi hj)
+      intro v ok s1 ⟨_, hi1, hj1, ha, hfail⟩
       cases ok with
-      | true => simp only [if_true, Outcome.Sat]; intro _; exact (ha rfl).1
+      | true => simp only [if_true, Outcome.Sat]; exact ⟨hj1, fun _ => (ha rfl).1⟩
       | false =>
         simp only [Bool.false_eq_true, if_false]
-        apply Outcome.sat_mono (throw_adv label frs s1 hi1)
-        · intro v' ok' s' h hok
+        apply Outcome.sat_mono (throw_adv label frs s1 hi1 hj1)
+        · intro v' ok' s' ⟨hj', h⟩
+          refine ⟨hj', fun hok => ?_⟩
           have := h hok
           rw [hfail rfl] at this; exact this
         · intro _ _; trivial
-    · exact throw_adv label frs s hi
+    · exact throw_adv label frs s hi hj
 
-theorem rule_adv (r : Rule) (s : PState) (hi : FInv E s) :
-    (parseRule E rec r s).Sat (fun _ ok s' => Adv rn r.expr s ok s') (fun _ => True) := by
+theorem rule_adv (r : Rule) (s : PState) (hi : FInv E s) (hj : J s) :
+    (parseRule E rec r s).Sat (fun _ ok s' => J s' ∧ Adv rn r.expr s ok s') (fun _ => True) := by
   unfold parseRule
   simp only []
-  apply Outcome.sat_bind (call_adv hp hfr hrec r.expr (pushV { s with rstack := r :: s.rstack }) (hi.congr rfl rfl))
-  intro v ok s1 ⟨_, _, ha, _⟩
+  apply Outcome.sat_bind (call_adv hmz hfr hrec r.expr (pushV { s with rstack := r :: s.rstack }) (hi.congr rfl rfl) (hJ.congr _ _ (by rfl) hj))
+  intro v ok s1 ⟨_, _, hj1, ha, _⟩
   simp only [Outcome.Sat]
-  intro hok
+  refine ⟨hJ.congr _ _ (by simp [popV]) hj1, fun hok => ?_⟩
   obtain ⟨h1, h2⟩ := ha hok
   exact ⟨by simpa [pushV, popV] using h1, fun heq => h2 (by simpa [pushV, popV] using heq)⟩
 
@@ -222,66 +241,77 @@ variable {E : Env} {rec : Expr → PState → Outcome} {rn : String → Bool}
 
 /-- consuming one rune moves forward -/
 theorem matchOne_adv (s : PState) (want : String) (hw : s.pt.w ≠ 0) :
-    (matchOne E s want).Sat (fun _ _ s' => s.pt.pos.off < s'.pt.pos.off) (fun _ => True) := by
+    (matchOne E s want).Sat (fun _ _ s' => s'.memo = s.memo ∧ s.pt.pos.off < s'.pt.pos.off) (fun _ => True) := by
   unfold matchOne
   simp only [Outcome.Sat, failAt.pt]
+  refine ⟨by simp, ?_⟩
   rw [read_pt]; simp; omega
 
 theorem runCodeBlock_pt (blk : Nat) (s : PState) (k : BlockResult → PState → Outcome)
     (Q : Val → Bool → PState → Prop)
-    (hk : ∀ r s2, s2.pt = s.pt → (k r s2).Sat Q (fun _ => True)) :
+    (hk : ∀ r s2, s2.pt = s.pt → s2.memo = s.memo → (k r s2).Sat Q (fun _ => True)) :
     (runCodeBlock E blk s k).Sat Q (fun _ => True) := by
   unfold runCodeBlock
   simp only []
   split
   · trivial
-  · exact hk _ _ (by simp)
+  · exact hk _ _ (by simp) (by simp)
 
-variable (hp : Plain E) (hfr : ∀ e s, FrameInv E s (rec e s))
-  (hrn : ∀ n r, E.findRule n = some r → r.expr.nul rn = true → rn n = true)
-  (hrec : ∀ e s, FInv E s → (rec e s).Sat (fun _ ok s' => Adv rn e s ok s') (fun _ => True))
-include hp hfr hrn hrec
+variable {J : PState → Prop} (hJ : MemoInv J)
+variable (hmz : E.opts.memoize = false) (hfr : ∀ e s, FrameInv E s (rec e s))
+  (hrec : ∀ e s, FInv E s → J s → (rec e s).Sat (fun _ ok s' => J s' ∧ Adv rn e s ok s') (fun _ => True))
+  (hrule : ∀ (k : Nat) (name : String) (r : Rule) (s : PState), E.findRule name = some r → FInv E s → J s →
+    (parseRuleWrap E rec k r s).Sat
+      (fun _ ok s' => J s' ∧ (ok = true → s.pt.pos.off ≤ s'.pt.pos.off ∧ (s'.pt.pos.off = s.pt.pos.off → rn name = true)))
+      (fun _ => True))
+include hJ hmz hfr hrec hrule
 
-theorem body_adv (k : Nat) (e : Expr) (s : PState) (hi : FInv E s) :
-    (parseExprBody E rec k e s).Sat (fun _ ok s' => Adv rn e s ok s') (fun _ => True) := by
-  have call := call_adv hp hfr hrec (rn := rn)
+theorem body_adv (k : Nat) (e : Expr) (s : PState) (hi : FInv E s) (hj : J s) :
+    (parseExprBody E rec k e s).Sat (fun _ ok s' => J s' ∧ Adv rn e s ok s') (fun _ => True) := by
+  have call := call_adv hmz hfr hrec (rn := rn)
   have hreach : Reach E.input s.pt := hi.2.1
+  have hjp : J (pushV s) := hJ.congr _ _ (by rfl) hj
   cases e with
   | andCode id blk =>
     simp only [parseExprBody, parseAndCode]
     apply runCodeBlock_pt
-    intro r s2 h2
+    intro r s2 h2 hm2
     simp only [Outcome.Sat, Adv, restoreState.pt, h2]
-    intro _; exact ⟨Nat.le_refl _, fun _ => rfl⟩
+    exact ⟨hJ.congr _ _ (by simp [hm2]) hj, fun _ => ⟨Nat.le_refl _, fun _ => rfl⟩⟩
   | notCode id blk =>
     simp only [parseExprBody, parseNotCode]
     apply runCodeBlock_pt
-    intro r s2 h2
+    intro r s2 h2 hm2
     simp only [Outcome.Sat, Adv, restoreState.pt, h2]
-    intro _; exact ⟨Nat.le_refl _, fun _ => rfl⟩
+    exact ⟨hJ.congr _ _ (by simp [hm2]) hj, fun _ => ⟨Nat.le_refl _, fun _ => rfl⟩⟩
   | stateCode id blk =>
     simp only [parseExprBody, parseStateCode]
     split
     · trivial
     · apply runCodeBlock_pt
-      intro r s2 h2
+      intro r s2 h2 hm2
       simp only [Outcome.Sat, Adv, h2]
-      intro _; exact ⟨Nat.le_refl _, fun _ => rfl⟩
+      exact ⟨hJ.congr _ _ hm2 hj, fun _ => ⟨Nat.le_refl _, fun _ => rfl⟩⟩
   | any id =>
     simp only [parseExprBody, parseAny]
     split
-    · simp [Outcome.Sat, Adv]
+    · simp only [Outcome.Sat, Adv]
+      exact ⟨hJ.congr _ _ (by simp) hj, fun hb => by cases hb⟩
     · rename_i hne
       have hw : s.pt.w ≠ 0 := fun h0 => hne (by simp [hreach.w0 h0, h0])
       apply Outcome.sat_mono (matchOne_adv s "." hw)
-      · intro v ok s' h _; exact ⟨by omega, fun heq => by omega⟩
+      · intro v ok s' ⟨hm, h⟩; exact ⟨hJ.congr _ _ hm hj, fun _ => ⟨by omega, fun heq => by omega⟩⟩
       · intro _ _; trivial
   | cls id c =>
     simp only [parseExprBody, parseCharClass]
-    have hmatch : s.pt.w ≠ 0 → (matchOne E s c.val).Sat (fun _ ok s' => Adv rn (.cls id c) s ok s') (fun _ => True) := by
+    have hfail : (Outcome.done .nil false (failAt s false s.pt.pos c.val)).Sat
+        (fun _ ok s' => J s' ∧ Adv rn (.cls id c) s ok s') (fun _ => True) := by
+      simp only [Outcome.Sat, Adv]
+      exact ⟨hJ.congr _ _ (by simp) hj, fun hb => by cases hb⟩
+    have hmatch : s.pt.w ≠ 0 → (matchOne E s c.val).Sat (fun _ ok s' => J s' ∧ Adv rn (.cls id c) s ok s') (fun _ => True) := by
       intro hw
       apply Outcome.sat_mono (matchOne_adv s c.val hw)
-      · intro v ok s' h _; exact ⟨by omega, fun heq => by omega⟩
+      · intro v ok s' ⟨hm, h⟩; exact ⟨hJ.congr _ _ hm hj, fun _ => ⟨by omega, fun heq => by omega⟩⟩
       · intro _ _; trivial
     split
     · rename_i hbl
@@ -291,120 +321,113 @@ theorem body_adv (k : Nat) (e : Expr) (s : PState) (hi : FInv E s) :
         intro h0; have := hreach.w0 h0; rw [this] at hlt; simp [runeError] at hlt
       split
       · exact hmatch hw
-      · simp [Outcome.Sat, Adv]
+      · exact hfail
     · split
-      · simp [Outcome.Sat, Adv]
+      · exact hfail
       · rename_i hne
         have hw : s.pt.w ≠ 0 := fun h0 => hne (by simp [hreach.w0 h0, h0])
         split
         · exact hmatch hw
-        · simp [Outcome.Sat, Adv]
+        · exact hfail
   | lit id val ic want =>
     simp only [parseExprBody]
     apply Outcome.sat_mono (lit_adv s.pt want ic val s)
-    · intro v ok s' h hok
+    · intro v ok s' ⟨hm, h⟩
+      refine ⟨hJ.congr _ _ hm hj, fun hok => ?_⟩
       obtain ⟨h1, h2⟩ := h hok
       exact ⟨h1, fun heq => by simp [Expr.nul, h2 heq]⟩
     · intro _ _; trivial
   | action id blk e1 =>
     simp only [parseExprBody, parseAction]
-    apply Outcome.sat_bind (call e1 s hi)
-    intro v ok s1 ⟨_, _, ha, _⟩
+    apply Outcome.sat_bind (call e1 s hi hj)
+    intro v ok s1 ⟨_, _, hj1, ha, _⟩
     cases ok with
-    | false => simp [Outcome.Sat, Adv]
+    | false => simp only [Bool.false_eq_true, if_false, Outcome.Sat, Adv]; exact ⟨hj1, fun hb => by cases hb⟩
     | true =>
       simp only [if_true]
       split
       · trivial
       · simp only [Outcome.Sat, Adv]
-        intro _
+        refine ⟨hJ.congr _ _ (by simp) hj1, fun _ => ?_⟩
         obtain ⟨h1, h2⟩ := ha rfl
         exact ⟨by simpa using h1, fun heq => h2 (by simpa using heq)⟩
   | and id e1 =>
     simp only [parseExprBody, parseAnd]
-    apply Outcome.sat_bind (call e1 (pushV s) (hi.congr rfl rfl))
-    intro v ok s1 _
+    apply Outcome.sat_bind (call e1 (pushV s) (hi.congr rfl rfl) hjp)
+    intro v ok s1 ⟨_, _, hj1, _, _⟩
     simp only [Outcome.Sat, Adv]
-    intro _
-    have : (restore (restoreState E (popV s1) s.state) s.pt).pt.pos.off = s.pt.pos.off := by
-      unfold restore; split
-      · rename_i h; exact h.symm
-      · rfl
+    refine ⟨hJ.congr _ _ (by simp) hj1, fun _ => ?_⟩
+    have : (restore (restoreState E (popV s1) s.state) s.pt).pt.pos.off = s.pt.pos.off := by simp
     exact ⟨by omega, fun _ => rfl⟩
   | not id e1 =>
     simp only [parseExprBody, parseNot]
-    apply Outcome.sat_bind (call e1 { pushV s with maxFailInvert := !s.maxFailInvert } (hi.congr rfl rfl))
-    intro v ok s1 _
+    apply Outcome.sat_bind (call e1 { pushV s with maxFailInvert := !s.maxFailInvert } (hi.congr rfl rfl) (hJ.congr _ _ (by rfl) hj))
+    intro v ok s1 ⟨_, _, hj1, _, _⟩
     simp only [Outcome.Sat, Adv]
-    intro _
-    have : (restore (restoreState E (popV { s1 with maxFailInvert := !s1.maxFailInvert }) s.state) s.pt).pt.pos.off = s.pt.pos.off := by
-      unfold restore; split
-      · rename_i h; exact h.symm
-      · rfl
+    refine ⟨hJ.congr _ _ (by simp [popV]) hj1, fun _ => ?_⟩
+    have : (restore (restoreState E (popV { s1 with maxFailInvert := !s1.maxFailInvert }) s.state) s.pt).pt.pos.off = s.pt.pos.off := by simp
     exact ⟨by omega, fun _ => rfl⟩
   | labeled id l e1 =>
     simp only [parseExprBody, parseLabeled]
-    apply Outcome.sat_bind (call e1 (pushV s) (hi.congr rfl rfl))
-    intro v ok s1 ⟨_, _, ha, _⟩
+    apply Outcome.sat_bind (call e1 (pushV s) (hi.congr rfl rfl) hjp)
+    intro v ok s1 ⟨_, _, hj1, ha, _⟩
     simp only [Outcome.Sat, Adv]
-    intro hok
+    have hst : ∀ s2 : PState, s2 = (if (ok && decide (l ≠ "")) = true then setLabel (popV s1) l v else popV s1) →
+        s2.pt = s1.pt ∧ s2.memo = s1.memo := by
+      intro s2 hs2; subst hs2; split <;> simp
+    obtain ⟨p1, p2⟩ := hst _ rfl
+    refine ⟨hJ.congr _ _ p2 hj1, fun hok => ?_⟩
     obtain ⟨h1, h2⟩ := ha hok
-    have hpt : ∀ s2 : PState, (if (ok && decide (l ≠ "")) = true then setLabel (popV s1) l v else popV s1).pt = s1.pt := by
-      intro _; split <;> simp
-    rw [hpt s]
+    rw [p1]
     exact ⟨by simpa using h1, fun heq => h2 (by simpa using heq)⟩
   | zeroOrOne id e1 =>
     simp only [parseExprBody, parseZeroOrOne]
-    apply Outcome.sat_bind (call e1 (pushV s) (hi.congr rfl rfl))
-    intro v ok s1 ⟨_, _, ha, hfail⟩
+    apply Outcome.sat_bind (call e1 (pushV s) (hi.congr rfl rfl) hjp)
+    intro v ok s1 ⟨_, _, hj1, ha, hfail⟩
     simp only [Outcome.Sat, Adv]
-    intro _
-    refine ⟨?_, fun _ => rfl⟩
+    refine ⟨hJ.congr _ _ (by simp) hj1, fun _ => ⟨?_, fun _ => rfl⟩⟩
     cases ok with
     | true => simpa using (ha rfl).1
     | false => have := hfail rfl; simp at this; simp [this]
   | recovery id e1 r labels =>
     simp only [parseExprBody, parseRecovery]
-    apply Outcome.sat_bind (call e1 (pushRecovery s labels r) (hi.congr rfl (by simp)))
-    intro v ok s1 ⟨_, _, ha, _⟩
+    apply Outcome.sat_bind (call e1 (pushRecovery s labels r) (hi.congr rfl (by simp)) (hJ.congr _ _ (by simp) hj))
+    intro v ok s1 ⟨_, _, hj1, ha, _⟩
     simp only [Outcome.Sat, Adv]
-    intro hok
-    exact ⟨by simpa using (ha hok).1, fun _ => rfl⟩
+    exact ⟨hJ.congr _ _ (by simp) hj1, fun hok => ⟨by simpa using (ha hok).1, fun _ => rfl⟩⟩
   | choice id line col alts =>
     simp only [parseExprBody]
-    exact choice_adv hp hfr hrec line col alts 0 s hi
+    exact choice_adv hJ hmz hfr hrec line col alts 0 s hi hj
   | seq id es =>
     simp only [parseExprBody]
-    exact seq_adv hp hfr hrec s.pt s.state es s [] hi
+    exact seq_adv hJ hmz hfr hrec s.pt s.state es s [] hi hj
   | oneOrMore id e1 =>
     simp only [parseExprBody]
-    apply Outcome.sat_mono (loop_adv hp hfr hrec e1 k s [] hi)
-    · intro v ok s' ⟨h1, h2⟩ hok
-      exact ⟨h1, fun heq => h2 hok rfl heq⟩
+    apply Outcome.sat_mono (loop_adv hJ hmz hfr hrec e1 k s [] hi hj)
+    · intro v ok s' ⟨hj', h1, h2⟩
+      exact ⟨hj', fun hok => ⟨h1, fun heq => h2 hok rfl heq⟩⟩
     · intro _ _; trivial
   | zeroOrMore id e1 =>
     simp only [parseExprBody, parseZeroOrMore]
-    apply Outcome.sat_bind (loop_adv hp hfr hrec e1 k s [] hi)
-    intro v ok s1 ⟨h1, _⟩
-    cases ok <;> simp only [Bool.false_eq_true, if_false, if_true, Outcome.Sat, Adv] <;> intro _ <;> exact ⟨h1, fun _ => rfl⟩
+    apply Outcome.sat_bind (loop_adv hJ hmz hfr hrec e1 k s [] hi hj)
+    intro v ok s1 ⟨hj1, h1, _⟩
+    cases ok <;> simp only [Bool.false_eq_true, if_false, if_true, Outcome.Sat, Adv] <;> exact ⟨hj1, fun _ => ⟨h1, fun _ => rfl⟩⟩
   | throw id label =>
     simp only [parseExprBody]
-    apply Outcome.sat_mono (throw_adv hp hfr hrec label s.recoveryStack s hi)
-    · intro v ok s' h hok; exact ⟨h hok, fun _ => rfl⟩
+    apply Outcome.sat_mono (throw_adv hmz hfr hrec label s.recoveryStack s hi hj)
+    · intro v ok s' ⟨hj', h⟩; exact ⟨hj', fun hok => ⟨h hok, fun _ => rfl⟩⟩
     · intro _ _; trivial
   | ruleRef id name =>
     simp only [parseExprBody, parseRuleRef]
     split
     · trivial
     · cases hf : E.findRule name with
-      | none => simp [Outcome.Sat, Adv]
+      | none => simp only [Outcome.Sat, Adv]; exact ⟨hJ.congr _ _ (by simp) hj, fun hb => by cases hb⟩
       | some r =>
         simp only []
-        rw [ruleWrap_eq hp k name r hf]
-        apply Outcome.sat_mono (rule_adv hp hfr hrec r s hi)
-        · intro v ok s' h hok
-          obtain ⟨h1, h2⟩ := h hok
-          exact ⟨h1, fun heq => hrn name r hf (h2 heq)⟩
+        apply Outcome.sat_mono (hrule k name r s hf hi hj)
+        · intro v ok s' ⟨hj', h⟩
+          exact ⟨hj', fun hok => by obtain ⟨h1, h2⟩ := h hok; exact ⟨h1, fun heq => by simp [Expr.nul, h2 heq]⟩⟩
         · intro _ _; trivial
 
 end
@@ -415,15 +438,34 @@ end
 theorem adv {E : Env} (hp : Plain E) {rn : String → Bool}
     (hrn : ∀ n r, E.findRule n = some r → r.expr.nul rn = true → rn n = true) :
     ∀ (f : Nat) (e : Expr) (s : PState), FInv E s →
-      (parseExpr E f e s).Sat (fun _ ok s' => Adv rn e s ok s') (fun _ => True)
-  | 0, _, _, _ => trivial
-  | f + 1, e, s, hi => by
-    show (parseExprStep E (parseExpr E f) f e s).Sat _ _
-    unfold parseExprStep
-    split
-    · trivial
-    · have := body_adv hp (parseExpr_frame E f) hrn (adv hp hrn f) f e (bump s) (hi.congr rfl rfl)
-      exact this
+      (parseExpr E f e s).Sat (fun _ ok s' => Adv rn e s ok s') (fun _ => True) := by
+  have hJ : MemoInv (fun _ : PState => True) := ⟨fun _ _ _ _ => trivial⟩
+  have key : ∀ (f : Nat) (e : Expr) (s : PState), FInv E s → True →
+      (parseExpr E f e s).Sat (fun _ ok s' => True ∧ Adv rn e s ok s') (fun _ => True) := by
+    intro f
+    induction f with
+    | zero => intro _ _ _ _; trivial
+    | succ f ih =>
+      intro e s hi _
+      show (parseExprStep E (parseExpr E f) f e s).Sat _ _
+      unfold parseExprStep
+      split
+      · trivial
+      · have hrule : ∀ (k : Nat) (name : String) (r : Rule) (s : PState), E.findRule name = some r → FInv E s → True →
+            (parseRuleWrap E (parseExpr E f) k r s).Sat
+              (fun _ ok s' => True ∧ (ok = true → s.pt.pos.off ≤ s'.pt.pos.off ∧ (s'.pt.pos.off = s.pt.pos.off → rn name = true)))
+              (fun _ => True) := by
+          intro k name r s hf hi' _
+          rw [ruleWrap_eq hp k name r hf]
+          apply Outcome.sat_mono (rule_adv hJ hp.nomemo (parseExpr_frame E f) ih r s hi' trivial)
+          · intro v ok s' ⟨_, h⟩
+            exact ⟨trivial, fun hok => by obtain ⟨h1, h2⟩ := h hok; exact ⟨h1, fun heq => hrn name r hf (h2 heq)⟩⟩
+          · intro _ _; trivial
+        exact body_adv hJ hp.nomemo (parseExpr_frame E f) ih hrule f e (bump s) (hi.congr rfl rfl) trivial
+  intro f e s hi
+  apply Outcome.sat_mono (key f e s hi trivial)
+  · intro v ok s' h; exact h.2
+  · intro _ _; trivial
 
 end RT
 end PV
